@@ -72,4 +72,49 @@ AlgoMulE2(N, a, b) ==
   ELSE IF a = <<>> \/ b = <<>> THEN <<>>
   ELSE LET r == MulMagE2(N, Abs(N, a), Abs(N, b))
        IN IF Sign(N, a) # Sign(N, b) THEN Neg(N, r) ELSE r
+
+-----------------------------------------------------------------------------
+(* add_mags (PxE2<N>, src/pxe2/ops.rs): the sum of two magnitudes of the same sign.           *)
+(* a >= b > 0 as N-bit patterns.  Significands sit at bit 62 of a 64-bit word, the smaller    *)
+(* one is shifted right by the scale difference (bits pushed out below bit 0 are dropped, a   *)
+(* difference above 63 gives 0), bit 63 of the sum is the carry.  The tail differs from mul's: *)
+(* the fraction is shifted by reg + 2, the narrow branches test the UPPER word only and do    *)
+(* not record the cut-off low exponent bit as sticky (unreachable: MCAlgo!PairsOk), and the   *)
+(* low-word sticky test is made only when the rounding bit is set.                            *)
+AddTailE2(N, k, ex, S62) ==
+  LET c == CalcRegime(k) IN
+  IF c.reg > N - 2 THEN (IF c.s THEN TopBits(W31, N) ELSE Pow2(32 - N))
+  ELSE
+    LET f64  == Shr(S62, c.reg + 2)
+        fa0  == Shr(f64, 32)
+        wide == c.reg + 4 <= N
+        bnp1 == IF wide THEN Bit(f64, 63 - N) = 1
+                ELSE IF c.reg = N - 2 THEN (ex \div 2) % 2 = 1
+                ELSE ex % 2 = 1
+        more0 == ~wide /\ fa0 # <<>>
+        ex2  == IF wide THEN ex ELSE IF c.reg = N - 2 THEN 0 ELSE (ex \div 2) * 2
+        fa   == IF wide THEN TopBits(fa0, N) ELSE <<>>
+        exw  == IF c.reg <= 28 THEN Shl(FromInt(ex2), 28 - c.reg) ELSE FromInt(ex2 \div (2 ^ (c.reg - 28)))
+        u    == Add(Add(c.bits, exw), fa)
+        more == more0 \/ LowNonZero(f64, 63 - N)
+    IN IF bnp1 THEN Add(u, Shl(FromInt(BOr(Bit(u, 32 - N), more)), 32 - N)) ELSE u
+
+AddMagsE2(N, a, b) ==
+  LET x == Sep(N, a)  y == Sep(N, b)
+      sr == 4 * (x.k - y.k) + x.ex - y.ex
+      fb == IF sr > 63 THEN <<>> ELSE Shr(Shl(y.f, 32), sr)
+      S0 == Add(Shl(x.f, 32), fb)
+      rc == Bit(S0, 63) = 1
+      e1 == IF rc THEN x.ex + 1 ELSE x.ex
+      k2 == IF e1 > 3 THEN x.k + 1 ELSE x.k
+      e2 == IF e1 > 3 THEN e1 - 4 ELSE e1
+      S  == IF rc THEN Shr(S0, 1) ELSE S0
+  IN Shr(AddTailE2(N, k2, e2, Low(S, 62)), 32 - N)
+
+\* a + b for non-zero, non-NaR operands of the same sign (the only case that reaches add_mags from `add`)
+AlgoAddSameE2(N, a, b) ==
+  LET ma == Abs(N, a)  mb == Abs(N, b)
+      r  == IF Cmp(ma, mb) >= 0 THEN AddMagsE2(N, ma, mb) ELSE AddMagsE2(N, mb, ma)
+  IN IF Sign(N, a) THEN Neg(N, r) ELSE r
+AddSamePre(N, a, b) == a # <<>> /\ b # <<>> /\ ~IsNaR(N, a) /\ ~IsNaR(N, b) /\ Sign(N, a) = Sign(N, b)
 =======================================================================
